@@ -159,17 +159,19 @@ theorem builder_decodes (G : Geo α) (C : Codes α) (hC : C.Distinct) (h : Build
 
 /-! ## 3. Strict form and zero-length segments (partial: explicit oracle hypotheses) -/
 
-/-- Full statement (NOT provable for the Go formulas, see `reversed_merge_witness`): after public
-builder calls there are no consecutive MoveTos, no Close directly after a MoveTo and no zero-length
-drawing record. -/
+/-- Full statement: after public builder calls there are no consecutive MoveTos, no Close directly
+after a MoveTo and no zero-length drawing record.  It cannot hold for ARBITRARY oracle answers (see
+`strict_needs_merge_soundness`); it is proved under explicit oracle hypotheses
+(`builder_strict_partial`) and, without hypotheses, for the Go formulas in exact arithmetic
+(`builder_strict_exact`).  For float64 the hypotheses fail only inside the Epsilon band
+(`Equal` is not transitive there); that step is covered by the validator oracle, not by a theorem. -/
 def builder_strict_statement (α : Type) [DecidableEq α] : Prop :=
   ∀ (G : Geo α) (ops : List (Op α)), (∀ o ∈ ops, o.isPublic = true) →
     Strict G.ptEq (ops.foldl (applyOp G) []) ∧ noZero G (ops.foldl (applyOp G) []) = true
 
 /-- PARTIAL.  If `Point.Equals` is symmetric, a vector is never at angle 0 with its reverse (`Sane`)
 and LineTo's merge test is sound (`MergeSound`), then every history of public builder calls yields a
-strictly well-formed path (no `M M`, no `M Z`) without zero-length records.  The Go formulas violate
-`MergeSound` (known finding C10-lineto-merges-reversed-line). -/
+strictly well-formed path (no `M M`, no `M Z`) without zero-length records. -/
 theorem builder_strict_partial (G : Geo α) (hS : Sane G) (hM : MergeSound G) (ops : List (Op α))
     (hpub : ∀ o ∈ ops, o.isPublic = true) :
     Strict G.ptEq (ops.foldl (applyOp G) []) ∧ noZero G (ops.foldl (applyOp G) []) = true := by
@@ -184,23 +186,37 @@ theorem builder_strict_partial (G : Geo α) (hS : Sane G) (hM : MergeSound G) (o
     exact ih (fun o' ho' => hpub o' (List.mem_cons_of_mem _ ho')) _
       (applyOp_strict G hS hM cs o (hpub o (List.mem_cons_self ..)) h)
 
-/-- WITNESS of the defect: with exact integer arithmetic and the Go code's sign-bit direction test,
-`MoveTo(0,0) LineTo(-2,0) LineTo(0,0)` merges the returning line into the first one and leaves the
-zero-length record `M0 0 L0 0`; so the merge test is not sound and the full statement fails. -/
-theorem reversed_merge_witness :
-    [Op.moveTo ⟨0, 0⟩, .lineTo ⟨-2, 0⟩, .lineTo ⟨0, 0⟩].foldl (applyOp goGeo) []
-        = [.line ⟨0, 0⟩, .move ⟨0, 0⟩] ∧
-    ¬ MergeSound goGeo ∧ ¬ builder_strict_statement Int := by
-  refine ⟨by decide, ?_, ?_⟩
-  · intro h
-    have := h ⟨0, 0⟩ ⟨-2, 0⟩ ⟨0, 0⟩ (by decide) (by decide) (by decide) (by decide)
-    revert this; decide
-  · intro h
-    have := (h goGeo [Op.moveTo ⟨0, 0⟩, .lineTo ⟨-2, 0⟩, .lineTo ⟨0, 0⟩] (by decide)).2
-    revert this; decide
+/-- The Go formulas satisfy both hypotheses in exact arithmetic; in particular the dominant-axis
+sign test of `LineTo` (path.go after 219108c: `|da.Y| < |da.X|`) never merges a reversing line. -/
+theorem goGeo_sound : Sane goGeo ∧ MergeSound goGeo := ⟨goGeo_sane, goGeo_mergeSound⟩
 
-/-- The hypotheses of `builder_strict_partial` are satisfiable: exact arithmetic with the direction
-test by dot product. -/
+/-- Hence, with exact arithmetic and the formulas of path.go, EVERY history of public builder calls is
+strictly well-formed and free of zero-length records — no hypotheses left. -/
+theorem builder_strict_exact (ops : List (Op Int)) (hpub : ∀ o ∈ ops, o.isPublic = true) :
+    Strict goGeo.ptEq (ops.foldl (applyOp goGeo) []) ∧ noZero goGeo (ops.foldl (applyOp goGeo) []) = true :=
+  builder_strict_partial goGeo goGeo_sane goGeo_mergeSound ops hpub
+
+/-- The hypothesis `MergeSound` cannot be dropped from `builder_strict_partial`: for an (artificial)
+oracle that answers "extends" to every parallel line — NOT the Go code — a reversing LineTo is merged
+and a zero-length record remains, so `builder_strict_statement` is false for arbitrary answers. -/
+theorem strict_needs_merge_soundness : ¬ builder_strict_statement Int := by
+  intro h
+  have := (h { goGeo with sameDir := fun _ _ => true }
+    [Op.moveTo ⟨0, 0⟩, .lineTo ⟨-2, 0⟩, .lineTo ⟨0, 0⟩] (by decide)).2
+  revert this; decide
+
+/-- Regression anchors for the repaired LineTo: reversing collinear lines (axis-parallel and
+diagonal, both directions) stay two records in the exact model of the current code. -/
+example : [Op.moveTo ⟨0, 0⟩, .lineTo ⟨-2, 0⟩, .lineTo ⟨0, 0⟩].foldl (applyOp goGeo) []
+    = [.line ⟨0, 0⟩, .line ⟨-2, 0⟩, .move ⟨0, 0⟩] := by decide
+example : [Op.moveTo ⟨0, 0⟩, .lineTo ⟨0, -2⟩, .lineTo ⟨0, 3⟩].foldl (applyOp goGeo) []
+    = [.line ⟨0, 3⟩, .line ⟨0, -2⟩, .move ⟨0, 0⟩] := by decide
+example : [Op.moveTo ⟨0, 0⟩, .lineTo ⟨-2, -3⟩, .lineTo ⟨2, 3⟩].foldl (applyOp goGeo) []
+    = [.line ⟨2, 3⟩, .line ⟨-2, -3⟩, .move ⟨0, 0⟩] := by decide
+example : [Op.moveTo ⟨0, 0⟩, .lineTo ⟨-2, 0⟩, .lineTo ⟨-5, 0⟩].foldl (applyOp goGeo) []
+    = [.line ⟨-5, 0⟩, .move ⟨0, 0⟩] := by decide
+
+/-- The hypotheses of `builder_strict_partial` are also satisfied by the dot-product direction test. -/
 example : Sane fixedGeo ∧ MergeSound fixedGeo := ⟨fixedGeo_sane, fixedGeo_mergeSound⟩
 
 /-- `Append` (and the raw branch of `Join`) of a receiver that ends in a MoveTo yields two consecutive
